@@ -20,3 +20,41 @@ META = {
         "technique": "runtime monitoring: reference-model monitor at the API boundary over seeded histories",
     },
 }
+
+META["C02"] = {
+    "text": "Exploration over histories x crash points: the bytes of the instrumented backing store, taken without flush at every call "
+            "boundary with no dirty handle, are reopened in both validation modes and must expose the model's state; forks continue the "
+            "history on the reopened object. Write-through is a per-call-site obligation, so sampling many histories that cross each "
+            "piecemeal-update site (counted in the evidence) is the fitting level.",
+    "design_ref": "DESIGN.md section 2, C02",
+    "note": "Trusts model + dump comparison; a crash is modelled as 'bytes as they are between two API calls' (in-memory backend, no torn writes inside one call).",
+    "technique": "runtime monitoring: byte-snapshot reopen oracle at every quiescent call boundary + forked continuation",
+}
+META["C03"] = {
+    "text": "Exploration: every image the real writer produces along seeded histories (plus large DIFAT/directory/MiniFAT scenarios) is "
+            "judged by an independent structural checker that shares no code with the library.",
+    "design_ref": "DESIGN.md section 2, C03",
+    "note": "Trusts refparse.rs's reading of MS-CFB (self-checked against synth.rs); v4 DIFAT-sector images (457 MB) are not generated.",
+    "technique": "runtime monitoring: independent offline checker over byte images recorded after every operation",
+}
+META["C06"] = {
+    "text": "Exploration: call scripts on a handle checked call-by-call against a byte-vector+cursor model under many buffer sizes and "
+            "both versions and both build profiles (overflow checks on), with extreme seek arguments.",
+    "design_ref": "DESIGN.md section 2, C06",
+    "note": "Trusts the Vec<u8>+cursor model and std's Read/Write/BufRead contracts as the meaning of raw calls.",
+    "technique": "runtime monitoring: reference-model monitor on Read/BufRead/Write/Seek calls + differential replay across configurations",
+}
+META["C07"] = {
+    "text": "Exploration: histories steered onto the dangerous shapes (two-child removal with a live handle on the in-order predecessor, "
+            "slot reuse) with a model of every handle and every stream, compared through fresh lookups and an independent parser.",
+    "design_ref": "DESIGN.md section 2, C07",
+    "note": "Trusts model and refparse; one handle per stream.",
+    "technique": "runtime monitoring: multi-handle reference model + independent byte-level parser at checkpoints",
+}
+META["C08"] = {
+    "text": "Exploration: every growing set_len in seeded shrink/grow/remove histories is followed by reading the gained bytes (same "
+            "handle, reopened file); payloads are never zero so any non-zero byte is stale data, classified by provenance.",
+    "design_ref": "DESIGN.md section 2, C08",
+    "note": "Trusts the harness's payload discipline (no zero bytes are ever written).",
+    "technique": "runtime monitoring: zero-fill assertion on the gained range with unique non-zero payloads",
+}
